@@ -244,7 +244,14 @@ def rcfg_config_verbatim(ctx):
     config_field_integrity(ctx, "C11.CFG", "max_connections")
 
 
-RULES = [r1_gate, r2_hold_until_done, r3_no_forget, r4_limit_provenance, r5_ws_close_reasons, rcfg_config_verbatim]
+
+def rstatus_http_status_table(ctx):
+    """the HTTP refusals relevant here carry their own status codes"""
+    from .common import http_status_table
+    http_status_table(ctx, "C11.STATUS", ('too_many_requests',))
+
+
+RULES = [r1_gate, r2_hold_until_done, r3_no_forget, r4_limit_provenance, r5_ws_close_reasons, rcfg_config_verbatim, rstatus_http_status_table]
 
 LEVEL_TEXT = (
     "Structural necessary conditions of the connection cap decided from the type-checked program: the acquire arm "
